@@ -6,7 +6,6 @@ import (
 	"fmt"
 	"io"
 	"net/http"
-	"strings"
 	"time"
 
 	"github.com/gobwas/ws"
@@ -74,13 +73,7 @@ func runWS(ctx context.Context, addr string, s *Script, callID string) ClientT {
 	if s.MetaPlan {
 		hdr.Set("X-Vf-Plan-Bin", encodeBin([]byte(s.planJSON())))
 	}
-	for _, kv := range s.MD {
-		v := string(kv.V)
-		if strings.HasSuffix(kv.K, "-bin") {
-			v = encodeBin(kv.V)
-		}
-		hdr.Add(kv.K, v)
-	}
+	addMD(hdr, s.MD)
 	conn, err := wire.WSDial(ctx, "ws://"+addr+wsPathOf[s.Shape]+callID, hdr)
 	if err != nil {
 		t.TransportErr = "websocket handshake: " + err.Error()
